@@ -324,6 +324,7 @@ class RMWaitWorld(CompWorld):
             self.budget += 1
             self.nops -= 1
             self.apply(tuple(lab))
+        self.trail = []          # operations of the fixed start state are not part of the recipe
 
     def menu(self):
         out = []
